@@ -178,7 +178,8 @@ func readOpen(r io.Reader) (*openResult, error) {
 		return nil, fmt.Errorf("synchronization error, incorrect header marker")
 	}
 	if hdr.Type == 3 {
-		return nil, readNotification(r)
+		// Never read past the end of the message announced by the header.
+		return nil, readNotification(io.LimitReader(r, int64(hdr.Len)-19))
 	}
 	if hdr.Type != 1 {
 		return nil, fmt.Errorf("message type is not OPEN, got %d, want 1", hdr.Type)
